@@ -360,6 +360,84 @@ def sentence_field_cases(rng, tier):
         add(gen.valid_sentence(rng))
     return out
 
+def address_sweeps(rng, tier):
+    """C07: the two address tables exhaustively — all 2^16 talkers and all 2^24 three-byte report
+    types (256 sweeps), plus talker x first report byte"""
+    from . import sweep
+    line = gen.sentence(b'15M', 0)
+    out = [sweep.case(line, 1, 2), sweep.case(gen.sentence(b'15M', 0, addr=b'AIVDO'), 1, 2), sweep.case(gen.sentence(b'15M', 0, start=b'$'), 1, 2),
+           sweep.case(line, 2, 3), sweep.case(line, 1, 3)]
+    for x in range(256):
+        out.append(sweep.case(gen.sentence(b'15M', 0, addr=b'AI' + bytes([x]) + b'DM'), 4, 5))
+    if tier != 'quick':
+        for x in range(256):
+            out.append(sweep.case(gen.sentence(b'15M', 0, addr=bytes([x]) + b'IVDM'), 2, 3))     # talker x first report byte
+            out.append(sweep.case(gen.sentence(b'15M', 0, addr=b'A' + bytes([x]) + b'VDM'), 1, 5))
+    return out
+
+def sentence_sweeps(rng, tier, decode=0):
+    """C01/C07/C08: every adjacent byte pair (and pairs one apart) of sentences of each shape, checksum kept valid"""
+    from . import sweep
+    pay, fill = gen.armor(gen.message_bits(rng, rng.choice([1, 5, 18, 24])))
+    pay = pay[:9]
+    lines = [gen.sentence(b'15M', 0), gen.sentence(pay, 2, 2, 1, 7, chan=b'B'), gen.sentence(pay, 0, 12, 10, 3, chan=b'')]
+    if tier != 'quick':
+        lines += [gen.sentence(pay, 0, tag=b's:r,c:12*4A'), gen.sentence(pay, 5, 1, 1, 0, start=b'$'), gen.sentence(b'', 0), gen.sentence(pay, 0, tail=b'\r')]
+    out = []
+    for l in lines:
+        out += sweep.adjacent(l, decode, 1, gaps=(1, 2) if tier != 'quick' else (1,))
+        star = l.rfind(b'*')
+        # the checksum field itself and its neighbours, not recomputed
+        out += [sweep.case(l, star + 1, star + 2, decode, 0), sweep.case(l, star, star + 1, decode, 0), sweep.case(l, star - 1, star + 2, decode, 0)]
+        if len(l) > star + 3: out.append(sweep.case(l, star + 2, star + 3, decode, 0))
+    return out
+
+def message_sweeps(rng, tier, types=None, per_type=None):
+    """C04/C09/C10/C11/C12/C14/C16: every value of a 16-bit window of a plausible payload of each type
+    (65536 payloads per sweep, compared through one digest); thorough tier only — the extracted model
+    needs 5-30 s per sweep"""
+    from . import sweep
+    out = []
+    per_type = per_type or scale(tier, 1, 4)
+    for t in (types or sorted(gen.LAYOUTS)):
+        for j in range(per_type):
+            b = gen.pack(gen.message_bits(rng, t, mode=['mixed', 'random', 'ones', 'zeros'][j % 4]))
+            if t == 5 and j > 1: continue          # the two 120-bit texts make type 5 the slowest
+            i = rng.randrange(0, len(b) - 1)
+            out.append(sweep.msg_case(b, i, i + 1))
+    return out
+
+def message_type_cases(rng, tier):
+    """C19: the first payload byte against payload length, fill field and sentence shape"""
+    out = []
+    pay, fill = gen.armor(gen.message_bits(rng, 1))
+    rests = [b'', b'0', b'w', pay[1:]]
+    for ch in range(256):
+        for rest in rests:
+            p = bytes([ch]) + rest
+            for f in range(0, 7):
+                out += ['H', L(0, rng.randrange(2), gen.sentence(p, f, start=rng.choice([b'!', b'$'])))]
+                out += ['H', L(0, 0, gen.sentence(p, f, 2, 1, 5)), L(0, rng.randrange(2), gen.sentence(b'0000', 0, 2, 2, 5))]
+                out += ['H', L(0, 0, gen.sentence(pay, 0, 2, 1, 5)), L(0, rng.randrange(2), gen.sentence(p, f, 2, 2, 5))]
+                out += ['H', L(0, 0, gen.sentence(pay, 0, 3, 1, 5)), L(0, 0, gen.sentence(p, f, 3, 2, 5)), L(0, rng.randrange(2), gen.sentence(b'00', 0, 3, 3, 5))]
+    return out
+
+def message_type_sweeps(rng, tier):
+    """C19: first payload byte x second payload byte, first payload byte x fill field (one-character
+    payload), with and without decoding, unfragmented and as a first fragment"""
+    from . import sweep
+    out = []
+    for d in (0, 1):
+        for n, k, sid in ((1, 1, None), (2, 1, 4)):
+            l1 = gen.sentence(b'1', 0, n, k, sid)          # ...,A,1,0*hh
+            i = l1.rfind(b',') - 1
+            out.append(sweep.case(l1, i, i + 2, d, 1))
+            l2 = gen.sentence(b'15M0', 0, n, k, sid)
+            i = l2.rfind(b',') - 4
+            out.append(sweep.case(l2, i, i + 1, d, 1))
+            out.append(sweep.case(l2, i, l2.rfind(b',') + 1, d, 1))
+    return out
+
 def sentence_context_cases(rng, tier):
     """C07: the reported fields and payload of sentences with every numbering shape, offered on a
     fresh parser, inside an open group and right after a delivered group (same and other id)"""
